@@ -836,6 +836,7 @@ struct GenCfg {
     burst_sizes: &'static [usize],
     drain: bool,
     frac_shares_p: f64,
+    dup_p: f64,
     preset_id_p: f64,
     unknown_symbol_p: f64,
 }
@@ -927,6 +928,7 @@ impl Gen {
             order_budget: if thorough { 7000 } else { 1500 },
             drain: c.chance(0.7),
             frac_shares_p: *c.pick(&[0.0, 0.1]),
+            dup_p: *c.pick(&[0.0, 0.2, 0.6]),
             preset_id_p: *c.pick(&[0.0, 0.0, 0.1]),
             unknown_symbol_p: *c.pick(&[0.0, 0.03]),
         };
@@ -946,8 +948,13 @@ impl Gen {
             kind_idx = (kind_idx & !1) | if b { 0 } else { 1 };
         }
         let is_buy = kind_idx % 2 == 0;
-        let tag = sim.next_tag;
-        sim.next_tag += 1;
+        let tag = if self.rng.chance(self.cfg.dup_p) && sim.next_tag > 1 {
+            sim.ctx.bump("probe_duplicate_quantity_orders");
+            (sim.next_tag - 1).saturating_sub(self.rng.below(3)).max(1)
+        } else {
+            sim.next_tag += 1;
+            sim.next_tag - 1
+        };
         let sz = match self.rng.usize(10) {
             0 => format!("{tag}.5"),
             1 | 2 => format!("{tag}.0"),
